@@ -516,7 +516,7 @@ func rlaneMain(argv []string) int {
 // runLaneR drives the lane-R workers and confirms / minimises what they report.
 func runLaneR(f *commonFlags, scratch string) (map[string]any, []*Violation, int) {
 	cases := int64(8000)
-	budget := 90 * time.Second
+	budget := 240 * time.Second // a cap: 8000 cases take about 20 s on an idle machine
 	if f.tier == "thorough" {
 		cases, budget = 1<<40, 5*time.Minute
 	}
